@@ -274,7 +274,7 @@ impl C17 {
         };
         let n = ALPHABET.len() as u64;
         if ctx.flavour == Flavour::Miri {
-            return Families::new(vec![("directed", directed().len() as u64), ("len-1", n), ("len-2", 40), ("len-3", 40), ("cuts", 4), ("random", 40), ("valgrind-prompt", 0), ("prompt-binary", 0), ("prompt-on-a-terminal", 0)]);
+            return Families::new(vec![("directed", directed().len() as u64), ("len-1", n), ("len-2", 40), ("len-3", 40), ("cuts", 4), ("random", 40), ("valgrind-prompt", 0), ("prompt-binary", 0), ("prompt-on-a-terminal", 0), ("interrupt-at-the-prompt", 0), ("stdout-closes-early", 0)]);
         }
         let (l3, cuts) = match (ctx.flavour, ctx.tier) {
             (Flavour::Rel, Tier::Quick) => (n * n * n, 600),
@@ -283,7 +283,7 @@ impl C17 {
         };
         let vg = if ctx.flavour == Flavour::Rel { directed().len() as u64 + ctx.tier.pick(0, 200) } else { 0 };
         let pb = if ctx.flavour == Flavour::Rel { directed().len() as u64 + n + n * n + ctx.tier.pick(400, 20_000) } else { 0 };
-        Families::new(vec![("directed", directed().len() as u64), ("len-1", n), ("len-2", n * n), ("len-3", l3), ("cuts", cuts), ("random", rnd), ("valgrind-prompt", vg), ("prompt-binary", pb), ("prompt-on-a-terminal", if ctx.flavour == Flavour::Rel { directed().len() as u64 + ctx.tier.pick(120, 3_000) } else { 0 })])
+        Families::new(vec![("directed", directed().len() as u64), ("len-1", n), ("len-2", n * n), ("len-3", l3), ("cuts", cuts), ("random", rnd), ("valgrind-prompt", vg), ("prompt-binary", pb), ("prompt-on-a-terminal", if ctx.flavour == Flavour::Rel { directed().len() as u64 + ctx.tier.pick(120, 3_000) } else { 0 }), ("interrupt-at-the-prompt", if ctx.flavour == Flavour::Rel { ctx.tier.pick(60, 1_500) } else { 0 }), ("stdout-closes-early", if ctx.flavour == Flavour::Rel { ctx.tier.pick(120, 3_000) } else { 0 })])
     }
 
     fn alphabet_session(i: u64, len: usize) -> Vec<Line> {
@@ -331,6 +331,14 @@ impl C17 {
                 let d = directed();
                 if (i as usize) < d.len() {
                     d[i as usize].1.iter().map(|t| Line { text: t.to_string(), budget: None }).collect()
+                } else {
+                    random_session(&mut r).into_iter().map(|l| Line { text: l.text, budget: None }).collect()
+                }
+            }
+            "interrupt-at-the-prompt" | "stdout-closes-early" => {
+                let d = directed();
+                if i < 30 {
+                    d[(i as usize * 7) % d.len()].1.iter().map(|t| Line { text: t.to_string(), budget: None }).collect()
                 } else {
                     random_session(&mut r).into_iter().map(|l| Line { text: l.text, budget: None }).collect()
                 }
@@ -456,6 +464,129 @@ impl C17 {
             st.violation("prompt-on-a-terminal:abnormal-end", format!("typed at a terminal, the prompt ended with {} (piped: normally); it wrote\n{}", status, crate::obs::clip(&String::from_utf8_lossy(&typed.stdout), 500)), &session_text(lines));
         } else if typed.stdout != piped.stdout {
             st.violation("prompt-on-a-terminal:differs-from-the-pipe", format!("typed at a terminal the prompt wrote\n{}\npiped in (stdout and stderr together) it wrote\n{}", crate::obs::clip(&String::from_utf8_lossy(&typed.stdout), 500), crate::obs::clip(&String::from_utf8_lossy(&piped.stdout), 500)), &session_text(lines));
+        }
+    }
+
+    /// sessions fit for the shipped prompt: short lines, no endless loop, sane in process
+    fn fit_for_the_prompt(lines: &[Line]) -> bool {
+        if lines.iter().any(|l| l.text.len() > 2_000 || l.text.contains("zolang ja") || l.text.contains('\r') || l.text.contains('\n') || l.text.contains('\u{4}') || l.text.contains('\u{3}')) {
+            return false;
+        }
+        let (obs_lines, events) = run_session_real(lines, ShadowMode::Off, false);
+        obs_lines.len() == lines.len() && events.is_empty() && obs_lines.iter().all(|o| matches!(o.outcome, Outcome::Value(_) | Outcome::Error(..)))
+    }
+
+    /// The interrupt key pressed while the prompt waits for a line (no program is running). Either that ends the
+    /// interpreter — what it does today — or the session goes on; then every later line has to answer what it answers
+    /// without the key press (an interrupt nobody was there to receive must not hit a later program).
+    fn interrupt_at_the_prompt(&self, lines: &[Line], r: &mut Rng, st: &mut Stats) {
+        let bin_s = format!("{}/harness/target-repo/release/nederlang", crate::sup::root());
+        let helper = format!("{}/tools/pty_session.py", crate::sup::root());
+        if !std::path::Path::new(&bin_s).exists() || !std::path::Path::new(&helper).exists() {
+            st.inconclusive(format!("{} or {} is missing", bin_s, helper));
+            return;
+        }
+        if lines.is_empty() || !Self::fit_for_the_prompt(lines) {
+            st.count("interrupt-at-the-prompt:skipped");
+            return;
+        }
+        let at = r.below(lines.len() as u64) as usize;
+        let twice = r.chance(1, 3);
+        let (mut plain, mut keyed) = (String::new(), String::new());
+        for (k, l) in lines.iter().enumerate() {
+            if k == at {
+                keyed.push_str("^C\n");
+                if twice {
+                    keyed.push_str("^C\n");
+                }
+            }
+            plain.push_str(&l.text);
+            plain.push('\n');
+            keyed.push_str(&l.text);
+            keyed.push('\n');
+        }
+        let base = format!("{}/int-{}-{}", crate::sup::scratch_dir(), std::process::id(), crate::rng::hash_str(&keyed));
+        let (p_plain, p_keyed) = (format!("{}-plain.txt", base), format!("{}-keyed.txt", base));
+        if std::fs::write(&p_plain, &plain).is_err() || std::fs::write(&p_keyed, &keyed).is_err() {
+            return;
+        }
+        let run = |path: &str| std::process::Command::new("bash").arg("-c").arg("ulimit -S -t 20; ulimit -H -t 30; exec timeout 600 python3 \"$0\" \"$1\" \"$2\"").arg(&helper).arg(&bin_s).arg(path).stdin(std::process::Stdio::null()).output();
+        let (a, b) = (run(&p_plain), run(&p_keyed));
+        let _ = std::fs::remove_file(&p_plain);
+        let _ = std::fs::remove_file(&p_keyed);
+        st.evaluations += 2;
+        let (a, b) = match (a, b) {
+            (Ok(a), Ok(b)) => (a, b),
+            _ => {
+                st.inconclusive("the terminal helper could not be started".to_string());
+                return;
+            }
+        };
+        let status = |o: &std::process::Output| String::from_utf8_lossy(&o.stderr).lines().last().unwrap_or("").to_string();
+        let (sa, sb) = (status(&a), status(&b));
+        if sa != "status=0" || !sb.starts_with("status=") || sb == "status=timeout" {
+            st.count("case-inconclusive:terminal-helper");
+            return;
+        }
+        // the answers: what was written, without prompts and blank lines
+        let answers = |o: &std::process::Output| -> Vec<String> { String::from_utf8_lossy(&o.stdout).replace(">>> ", "\n").replace("^C", "\n").lines().map(|l| l.trim().to_string()).filter(|l| !l.is_empty()).collect() };
+        let (want, got) = (answers(&a), answers(&b));
+        st.count("interrupt-at-the-prompt:sessions");
+        if sb == "status=-2" || sb == "status=130" {
+            st.count("interrupt-at-the-prompt:the-interpreter-ended");
+            if !want.starts_with(&got) {
+                st.violation("interrupt-at-the-prompt:answers-before-the-key-differ", format!("answers before the interrupt key: {:?}, without it: {:?}", got, want), &keyed);
+            }
+        } else if sb != "status=0" {
+            st.violation("interrupt-at-the-prompt:abnormal-end", format!("after the interrupt key the prompt ended with {}", sb), &keyed);
+        } else if got != want {
+            st.count("interrupt-at-the-prompt:the-session-went-on");
+            st.violation("interrupt-at-the-prompt:later-lines-answer-differently", format!("the interrupt key was pressed at the idle prompt before line {}; answers with it {:?}, without it {:?}", at + 1, got, want), &keyed);
+        } else {
+            st.count("interrupt-at-the-prompt:the-session-went-on");
+        }
+    }
+
+    /// Whoever reads the interpreter's standard output goes away after a few bytes (`nederlang < script | head -c N`).
+    /// Printing then fails; today that ends the interpreter with a Rust panic message and status 101 (an observation of
+    /// DESIGN §13, not judged here). What must not happen is memory damage on the way out: death by SIGSEGV / SIGABRT.
+    fn stdout_closes_early(&self, lines: &[Line], r: &mut Rng, st: &mut Stats) {
+        let bin_s = format!("{}/harness/target-repo/release/nederlang", crate::sup::root());
+        if !std::path::Path::new(&bin_s).exists() {
+            st.inconclusive(format!("{} is missing", bin_s));
+            return;
+        }
+        if lines.is_empty() || !Self::fit_for_the_prompt(lines) {
+            st.count("stdout-closes-early:skipped");
+            return;
+        }
+        // heap values first, then lines that print, so that something is alive when printing fails
+        let mut body = String::from("stel bewaard = [1.5, \"tekst\", [2.5, \"diep\"]]\nstel f = functie(x) { [x, 0.25] }\nstel g = f(\"g\")\n");
+        for l in lines {
+            body.push_str(&l.text);
+            body.push('\n');
+            if r.chance(1, 3) {
+                body.push_str("print(\"{} {}\", bewaard, g)\n");
+            }
+        }
+        body.push_str("print(\"{}\", f(bewaard))\nbewaard\n");
+        let file_mode = r.chance(1, 4);
+        let path = format!("{}/sce-{}-{}.txt", crate::sup::scratch_dir(), std::process::id(), crate::rng::hash_str(&body));
+        if std::fs::write(&path, if file_mode { body.replace('\n', ";\n") } else { body.clone() }).is_err() {
+            return;
+        }
+        let n = [0u64, 1, 3, 4, 5, 8, 16, 40, 100, 1000][r.below(10) as usize];
+        let script = if file_mode { "ulimit -S -t 20; \"$0\" \"$1\" 2>/dev/null | head -c \"$2\" >/dev/null; echo ${PIPESTATUS[0]}" } else { "ulimit -S -t 20; \"$0\" < \"$1\" 2>/dev/null | head -c \"$2\" >/dev/null; echo ${PIPESTATUS[0]}" };
+        let out = std::process::Command::new("bash").arg("-c").arg(script).arg(&bin_s).arg(&path).arg(n.to_string()).stdin(std::process::Stdio::null()).output();
+        let _ = std::fs::remove_file(&path);
+        st.evaluations += 1;
+        if let Ok(o) = out {
+            let status = String::from_utf8_lossy(&o.stdout).trim().to_string();
+            st.count(&format!("stdout-closes-early:status:{}", status));
+            // 0 = it finished before anyone noticed; 101 = the panic of println!; 141 = SIGPIPE
+            if !matches!(status.as_str(), "0" | "101" | "141") {
+                st.violation(&format!("stdout-closes-early:status-{}", status), format!("the reader of standard output went away after {} bytes; the interpreter ended with status {} (128 + signal)", n, status), &body);
+            }
         }
     }
 
@@ -605,6 +736,7 @@ pub fn directed() -> Vec<(&'static str, Vec<&'static str>)> {
         // tens of thousands of refused lines, each with a literal of its own: they leave nothing behind (the constant pool
         // holds 65 535 entries)
         ("many-refused-lines", many_refused_lines()),
+        ("prompt-commands-are-lines-like-any-other", vec!["stel teller = 0", "stel verhoog = functie() { teller = teller + 1 }", "verhoog()", ":wis", "stel a = 10", "stel b = b", "b()", "a", ":reset", "verhoog()", "teller", ":q"]),
         // (known finding: the code of a line that fails while running stays in the session)
         ("run-time-failures-leave-their-code", vec!["stel a = 1", bulk_statements_failing(), bulk_statements_failing(), "a", "als a == 1 { 2 } anders { 3 }", "a + 1"]),
         ("functions-on-both-sides-of-much-code", vec!["stel a = functie(x) { x + 1 }", bulk_statements(), "stel b = functie(x) { a(x) * 2 }", bulk_statements(), "stel c = functie(x) { b(x) - 1 }", bulk_statements(), "[a(1), b(1), c(1)]", "a = functie(x) { x + 100 }", "[a(1), b(1), c(1)]"]),
@@ -661,8 +793,10 @@ fn random_session(r: &mut Rng) -> Vec<Line> {
                 ints[r.below(ints.len() as u64) as usize].clone()
             }
         };
-        let k = r.below(50);
+        let k = r.below(52);
         let text = match k {
+            // what people type at a prompt that is not the language: it is a line like any other (refused, or a name)
+            50 | 51 => (*r.pick(&[":wis", ":hulp", ":stop", ":help", ":quit", ":q", ":reset", ":clear", ".exit", ".help", "\\q", "?", "help", "exit", "quit", "clear", "wis", "hulp", "#reset", "%reset", "!!", "exit()", "help()"])).to_string(),
             // a line that is refused (compile time) or fails (run time) after a function literal, then typed again
             46 => {
                 fresh += 1;
@@ -1168,6 +1302,16 @@ impl Check for C17 {
         }
         if fam == "prompt-on-a-terminal" {
             self.prompt_on_terminal(&lines, st);
+            return;
+        }
+        if fam == "interrupt-at-the-prompt" {
+            let mut r = Rng::for_case(ctx.seed, 1790, idx);
+            self.interrupt_at_the_prompt(&lines, &mut r, st);
+            return;
+        }
+        if fam == "stdout-closes-early" {
+            let mut r = Rng::for_case(ctx.seed, 1791, idx);
+            self.stdout_closes_early(&lines, &mut r, st);
             return;
         }
         if fam == "prompt-binary" {
